@@ -37,15 +37,57 @@ def rule_cow(ctx, rep):
     rep.floor("R-COW", 9, "3 functions x (path set, order, gate/write-back)")
 
 
-def _arc_cow_order(F, A, b, prs, rep, tag):
+def _mut_ref_index(ev, A=None):
+    """Index of the event that hands out mutable access: a `&mut` borrow of the payload, the `&mut Arc -> &mut UniqueArc`
+    constructor, or a call of a private helper that does nothing but take that borrow (`unsafe fn data_mut_unchecked`)."""
+    i_ref = None
+    for i, e in enumerate(ev):
+        if e["kind"] == "DATAREF" and e["detail"]["mut"]:
+            i_ref = i
+        if e["kind"] == "CALL" and (e["detail"].get("callee") or "").endswith("::from_arc_ref"):
+            i_ref = i
+        if e["kind"] == "CALL" and A is not None and e["detail"].get("outcome") is None and e["vec"] == ZERO:
+            ck = e["detail"].get("callee")
+            if ck in A.paths and any(x["kind"] == "DATAREF" and x["detail"]["mut"] for q in A.paths[ck] for x in q.events):
+                i_ref = i
+    return i_ref
+
+
+def _arc_cow_order(F, A, b, prs, rep, tag, key=None, need_ref=True):
     """Clone path: gate false -> clone of the old payload -> fresh block -> release of the old handle -> &mut from the new pointer.
-    Unique path: gate true -> &mut from the incoming pointer, nothing else."""
-    key = b["key"]
+    Unique path: gate true -> &mut from the incoming pointer, nothing else.
+    The test-and-unshare part may live in one private helper (`fn clone_if_shared(this: &mut Self)`): then the sequence is
+    judged in the helper and the caller only has to take its borrow after the call."""
+    key = key or b["key"]
     gate_key = None
     ok_order = True
     ok_gate = True
     why = None
     B = cfg.Body(b)
+    if need_ref and _gate_edges(F, B, A.E) is None:
+        helpers = set()
+        for p in prs:
+            for e in p.events:
+                if e["kind"] == "CALL" and isinstance(e["detail"], dict) and e["detail"].get("outcome") is None:
+                    hk = e["detail"].get("callee")
+                    hb = F.body(hk) if hk else None
+                    if hb is not None and not balance.is_api(F, hb) and hk in A.paths and hk not in A.errors:
+                        if any(x["kind"] == "CALL" and _is_gate(F, x["detail"].get("callee")) for q in A.paths[hk] for x in q.events):
+                            helpers.add(hk)
+        if len(helpers) == 1:
+            hk = next(iter(helpers))
+            bad = None
+            for p in prs:
+                i_call = idx_of(p.events, lambda e: e["kind"] == "CALL" and e["detail"].get("callee") == hk)
+                i_ref = _mut_ref_index(p.events, A)
+                if i_call is None or i_ref is None or not i_call < i_ref:
+                    bad = p
+            if bad is not None:
+                rep.bad("R-COW", key + "/order", balance.path_report(F, b, bad, "the mutable borrow must be taken after the call of the helper that tests and un-shares the handle (%s)" % hk), F.loc(b), tag)
+                return
+            hb = F.body(hk)
+            _arc_cow_order(F, A, hb, [q for q in A.paths[hk] if q.exit == "ret"], rep, tag, key=key, need_ref=False)
+            return
     for p in prs:
         ev = p.events
         i_clone = idx_of(ev, lambda e: e["kind"] == "UCLONE")
@@ -54,12 +96,9 @@ def _arc_cow_order(F, A, b, prs, rep, tag):
         i_drop = idx_of(ev, lambda e: e["kind"] == "DROP" and c04.released(e["vec"]) > 0)
         i_gate = idx_of(ev, lambda e: e["kind"] == "CALL" and _is_gate(F, e["detail"].get("callee")))
         # the mutable borrow handed out (payload borrow or &mut Arc -> &mut UniqueArc cast)
-        i_ref = None
-        for i, e in enumerate(ev):
-            if e["kind"] == "DATAREF" and e["detail"]["mut"]:
-                i_ref = i
-            if e["kind"] == "CALL" and (e["detail"].get("callee") or "").endswith("::from_arc_ref"):
-                i_ref = i
+        i_ref = _mut_ref_index(ev, A)
+        if not need_ref:
+            i_ref = len(ev)  # judged in the caller: it borrows after this helper returned
         if i_gate is None:
             ok_gate, why = False, balance.path_report(F, b, p, "no uniqueness test on this path before mutable access is handed out")
             continue
